@@ -2,4 +2,4 @@
 From LV Require Import Httpd.HttpdDefs.
 Require Import ExtrOcamlBasic.
 Extraction Language OCaml.
-Extraction "../build/ocaml/C20/model.ml" http_process_n v_prefix v_tree parse_params atoi.
+Extraction "../build/ocaml/C20/model.ml" http_process_n v_prefix v_tree parse_params atoi accept_step http_call subst_text.
